@@ -188,7 +188,7 @@ def _parse_messages(stream: bytes) -> list[bytes] | None:
 
 def run_async_case(case: dict) -> Outcome:
     try:
-        r = run_virtual(_session, case)
+        r = run_virtual(_session, case, spin_n=100_000)
     except Deadlock as exc:
         raise Violation("deadlock", f"TLS session did not complete: {exc}") from exc
     if r["peer_error"]:
@@ -556,7 +556,7 @@ async def _echo_session(case: dict) -> dict:
 
 def run_echo_case(case: dict) -> Outcome:
     try:
-        r = run_virtual(_echo_session, case)
+        r = run_virtual(_echo_session, case, spin_n=100_000)
     except Deadlock as exc:
         raise Violation(
             "deadlock",
